@@ -69,6 +69,9 @@ type vpEnt struct {
 func vpMakeEntries(nk, maxVer int) []vpEnt {
 	var ents []vpEnt
 	var prev []byte
+	// ents.total > 0 bounds the number of entries over all keys (e.g. 2 keys x 3 versions but at
+	// most 4 entries), so that deep version chains and several keys fit into one tier
+	maxTotal := vpParam("ents.total", 0)
 	for k := 0; k < nk; k++ {
 		kl := 1 + vpChoose("keylen", 2)
 		uk := vpBytes("ukey", kl)
@@ -76,7 +79,14 @@ func vpMakeEntries(nk, maxVer int) []vpEnt {
 			vpAssume(bytes.Compare(prev, uk) < 0)
 		}
 		prev = uk
-		nv := 1 + vpChoose("nversions", maxVer)
+		room := maxVer
+		if maxTotal > 0 {
+			// leave one entry for every key still to come
+			if r := maxTotal - len(ents) - (nk - 1 - k); r < room {
+				room = r
+			}
+		}
+		nv := 1 + vpChoose("nversions", room)
 		var pv uint64
 		for v := 0; v < nv; v++ {
 			e := vpEnt{ukey: uk, ver: vpU64("ver"), meta: vpU8("meta"), umeta: vpU8("umeta"), exp: vpU64("exp"), keyIdx: k, val: vpU8("val")}
